@@ -400,6 +400,18 @@ func (k *c06) checkStmt(i int) {
 	s := k.stmt(i, false)
 	text := s.Text()
 	scenario := map[string]interface{}{"kind": "stmt", "index": i}
+	if i%4 == 1 {
+		// the verdict on a text must not depend on which texts were classified before it: look-alikes of this statement that
+		// mean something else (quoted spellings of now/uuid/system that name user functions, other letter case inside quotes,
+		// whitespace the grammar does not know, a truncated copy) go first; their own verdicts are not judged
+		for _, p := range c06Lookalikes(text) {
+			if _, _, pp := k.classify(p, "lookalike-of-generated-statement", scenario); pp {
+				return
+			}
+		}
+		scenario["classified_after_lookalikes"] = true
+		k.obs["statements_classified_after_lookalikes"]++
+	}
 	base, err, panicked := k.classify(text, "generated-statement", scenario)
 	if panicked {
 		return
@@ -1044,4 +1056,33 @@ func (k *c06) replay() {
 	k.r.NonTrivial("replay-a")
 	k.r.NonTrivial("replay-b")
 	k.r.Required = nil
+}
+
+var c06FnRe = regexp.MustCompile(`(?i)"?\b(now|uuid)"?(\s*\()`)
+var c06SysRe = regexp.MustCompile(`(?i)"?\bsystem"?(\s*\.)`)
+var c06WsRe = regexp.MustCompile(`[ \t\r\n]+`)
+
+// c06Lookalikes: texts a careless canonicalisation would take for the statement itself.
+func c06Lookalikes(text string) []string {
+	var out []string
+	add := func(t string) {
+		if t != text && t != "" {
+			out = append(out, t)
+		}
+	}
+	add(c06FnRe.ReplaceAllStringFunc(text, func(m string) string {
+		sub := c06FnRe.FindStringSubmatch(m)
+		return `"` + strings.ToUpper(sub[1]) + `"` + sub[2]
+	}))
+	add(c06SysRe.ReplaceAllStringFunc(text, func(m string) string {
+		sub := c06SysRe.FindStringSubmatch(m)
+		return `"SYSTEM"` + sub[1]
+	}))
+	add(strings.ToLower(text))
+	add(strings.ToUpper(text))
+	add(c06WsRe.ReplaceAllString(text, "\v"))
+	add(c06WsRe.ReplaceAllString(text, "\u00a0"))
+	add(strings.ReplaceAll(text, `"`, ""))
+	add(text[:len(text)/2])
+	return out
 }
